@@ -8,7 +8,7 @@ from vlib.verdict import Case
 
 PROPERTY = 'C19'
 MANIFEST = {
- 'level_text': 'Lean 4 theorems, kernel-checked, about a model of Irc.queueMsg/sendMsg/takeMsg/die/reset and IrcMsgQueue, for every interleaving of those calls with clock ticks, MOTD end, PONG, echo-message (un)acknowledgement and configuration changes, and for every chain of outFilters (arbitrary functions): multiset conservation (accepted = handed to the driver + dropped by a filter + lost + discarded by reset + still queued; refusal is an explicit False with no effect), fast queue first then the most urgent non-empty class and its head, per-class FIFO as list equations over whole histories (a rate-limited JOIN only moves to the back), a trace checker for throttle and JOIN-rate gaps that every trace passes plus its meaning spelled out, the driver is killed only with both queues empty once connected (after the repair of takeMsg), takeMsg satisfies the recursive equation of the code and a filter returning None consumes exactly its message, progress (clock past the limits => a take consumes a message) and a quitting bot drains in at most as many takes as messages wait and then closes; after the repair of the echo emulation (the echo is now a tagged copy; a re-queued IrcMsg object used to be swallowed by the assertion) nothing is lost and the conservation law holds in full (no_loss, conservation_full: for callers handing over any objects any number of times and filters returning their argument or a new message); the tagged objects are only the echo copies made by the bot. Server tags are part of message equality (duplicate refusal). The labeled-response label is in the model as the first link of the chain (same object, one more server tag, never drops; delivered_is_labeled), so every theorem about arbitrary filter chains covers it. takeMsg is a loop since a repair prompted here (it called itself once per dropped message: some hundreds of messages dropped in a row hit the recursion limit, the firewall swallowed the RecursionError and a message no filter had dropped was lost; witness in KNOWN_FINDINGS, replayed at a shallow stack on every run); its bound, one round per message waiting at entry plus one, is the fuel of the model. OutFilters that call irc.sendMsg / irc.queueMsg themselves are modelled (Reentrant.lean): with filters that queue nothing the re-entrant model is the verified one (rtakeMsg_plain), conservation holds with everything the filters send counted as accepted (rtakeMsg_conserves), what they send goes behind what is waiting, and a run of dropped messages, whatever is queued meanwhile, cannot keep the first message the chain lets through from leaving in the same call (rtakeMsg_no_stall); the differential runs include such filters (drop-and-send, drop-and-queue, pass-and-send). The ping time-out path is spelled out (ping_timeout_reconnects: nothing is returned, the driver reconnects, reset() clears both queues, forgets the unanswered PING and leaves exactly the registration messages, as new objects, in the fast queue; reset_starts_clean: the ping machinery is idle until the next end of MOTD, so a reconnect cannot trigger another; a dying bot queues nothing). Priority tables, the rate-limited command and the echo-emulated commands are re-extracted from /repo on every run and pinned by table lemmas. The model is tied to src/irclib.py by a differential run of seeded operation sequences on a real Irc object (return values, driver calls, filter log, discarded messages and the full queue/state dump after every operation), which also evaluates the property statement directly on the implementation to produce replays; a second stream drives the same Irc through the real drivers.Socket.SocketDriver on a fake socket (every takeMsg call the driver makes is compared with the model; the bytes on each connection must be exactly the messages takeMsg returned, each line at most 512 bytes and cut on a character boundary, every new connection starting with the registration) — which exposed and led to the repair of SocketDriver._sendIfMsgs (a message taken while the previous one was still buffered overwrote it).',
+ 'level_text': 'Lean 4 theorems, kernel-checked, about a model of Irc.queueMsg/sendMsg/takeMsg/die/reset and IrcMsgQueue, for every interleaving of those calls with clock ticks, MOTD end, PONG, echo-message (un)acknowledgement and configuration changes, and for every chain of outFilters (arbitrary functions): multiset conservation (accepted = handed to the driver + dropped by a filter + lost + discarded by reset + still queued; refusal is an explicit False with no effect), fast queue first then the most urgent non-empty class and its head, per-class FIFO as list equations over whole histories (a rate-limited JOIN only moves to the back), a trace checker for throttle and JOIN-rate gaps that every trace passes plus its meaning spelled out, the driver is killed only with both queues empty once connected (after the repair of takeMsg), takeMsg satisfies the recursive equation of the code and a filter returning None consumes exactly its message, progress (clock past the limits => a take consumes a message) and a quitting bot drains in at most as many takes as messages wait and then closes; after the repair of the echo emulation (the echo is now a tagged copy; a re-queued IrcMsg object used to be swallowed by the assertion) nothing is lost and the conservation law holds in full (no_loss, conservation_full: for callers handing over any objects any number of times and filters returning their argument or a new message); the tagged objects are only the echo copies made by the bot. Server tags are part of message equality (duplicate refusal). The labeled-response label is in the model as the first link of the chain (same object, one more server tag, never drops; delivered_is_labeled), so every theorem about arbitrary filter chains covers it. takeMsg is a loop since a repair prompted here (it called itself once per dropped message: some hundreds of messages dropped in a row hit the recursion limit, the firewall swallowed the RecursionError and a message no filter had dropped was lost; witness in KNOWN_FINDINGS, replayed at a shallow stack on every run); its bound, one round per message waiting at entry plus one, is the fuel of the model. OutFilters that call irc.sendMsg / irc.queueMsg themselves are modelled (Reentrant.lean): with filters that queue nothing the re-entrant model is the verified one (rtakeMsg_plain), conservation holds with everything the filters send counted as accepted (rtakeMsg_conserves), what they send goes behind what is waiting, and a run of dropped messages, whatever is queued meanwhile, cannot keep the first message the chain lets through from leaving in the same call (rtakeMsg_no_stall); the differential runs include such filters (drop-and-send, drop-and-queue, pass-and-send). The ping time-out path is spelled out (ping_timeout_reconnects: nothing is returned, the driver reconnects, reset() clears both queues, forgets the unanswered PING and leaves exactly the registration messages, as new objects, in the fast queue; reset_starts_clean: the ping machinery is idle until the next end of MOTD, so a reconnect cannot trigger another; a dying bot queues nothing). The ping machinery over whole histories (take_ping_cases, ping_history): a takeMsg either leaves the ping state alone, or emits exactly one PING — with both queues empty, after the MOTD, the interval elapsed, none outstanding —, or with a PING outstanding that long reconnects exactly once; over a life, reconnects + outstanding <= PINGs <= reconnects + PONGs/resets + outstanding (never two time-outs for one PING, at most one PING outstanding). Threads: Irc.queueMsg from other threads is modelled at statement granularity (the test for an equal queued message and the append as separate steps of a thread): conservation holds for every interleaving (trun_conserves), the refusal of duplicates did not (unlocked_duplicates; found on the real code by the two-thread stream, repaired with a lock in IrcMsgQueue.enqueue whose placement is extracted, enqueue_is_locked; under it the two steps are one queueMsg, locked_pair). Priority tables, the rate-limited command and the echo-emulated commands are re-extracted from /repo on every run and pinned by table lemmas. The model is tied to src/irclib.py by a differential run of seeded operation sequences on a real Irc object (return values, driver calls, filter log, discarded messages and the full queue/state dump after every operation), which also evaluates the property statement directly on the implementation to produce replays; a second stream drives the same Irc through the real drivers.Socket.SocketDriver on a fake socket (every takeMsg call the driver makes is compared with the model; the bytes on each connection must be exactly the messages takeMsg returned, each line at most 512 bytes and cut on a character boundary, every new connection starting with the registration) — which exposed and led to the repair of SocketDriver._sendIfMsgs (a message taken while the previous one was still buffered overwrote it).',
  'level_note': 'Trusted: Lean kernel; axioms propext/Classical.choice/Quot.sound only; harness/extractors/ircqueue.py; the correspondence harness (generator quality bounds what it sees); integer-valued virtual clock; stub driver whose reconnect() calls irc.reset() as SocketDriver.reconnect does; a second Irc stays registered so that _reallyDie does not clear the shared callback list. Modelled: IrcMsgQueue.enqueue/dequeue/__contains__/reset, Irc.queueMsg/sendMsg/takeMsg (fast queue, throttle, ping emission and ping time-out reconnect, outFilter chain with recursion on None, firewall on a raising filter, echo emulation tag/assert, zombie branch)/die/reset/_queueConnectMessages/_reallyDie (driver part), object identity of messages, server tags in message equality. the labeled-response label (makeLabel() is random: the model uses the fresh number of the link; only the presence of such a label is compared). Not modelled: _truncateMsg as a function (it rewrites only the cached wire text, not prefix/command/arguments; its 512-byte bound is proved in C12 and checked here on the socket of the real driver with over-long ASCII and multi-byte messages); the label written into an object that is queued twice at the same moment (aliasing: the model labels each queue entry separately); state.addMsg of outgoing messages (only under world.testing; the harness runs with world.testing False); a filter chain that keeps re-sending what it drops (an endless source of messages: takeMsg gives up after one round per message waiting at entry plus one and returns None; nothing is lost, but such a chain starves the regular queue by its own doing), the callbacks of real plugins (the Irc under test carries harness filter callbacks only), non-ASCII command upper-casing, negative or fractional rates, messages sent with sendMsg are outside the throttle/JOIN-rate claims (by design of the fast queue). Stated precondition of quit_drains: die() before the end of MOTD (afterConnect False) closes the connection at once by design.',
  'technique': 'Lean 4 proof (induction over operation sequences with invariants) + table extraction + differential correspondence',
  'design_ref': 'DESIGN.md §6 C19',
@@ -21,7 +21,9 @@ THEOREMS = ['C19.tables_ok', 'C19.classes_ok', 'C19.conservation', 'C19.conserva
             'C19.lost_only_tagged', 'C19.tagged_are_echo_copies', 'C19.no_stall', 'C19.quit_completes',
             'C19.ping_timeout_reconnects', 'C19.reset_starts_clean', 'C19.reset_zombie',
             'C19.label_step', 'C19.delivered_is_labeled',
-            'C19.rtakeMsg_plain', 'C19.rtakeMsg_conserves', 'C19.rtakeMsg_no_stall']
+            'C19.rtakeMsg_plain', 'C19.rtakeMsg_conserves', 'C19.rtakeMsg_no_stall',
+            'C19.take_ping_cases', 'C19.pong_clears', 'C19.ping_history',
+            'C19.trun_conserves', 'C19.locked_pair', 'C19.unlocked_duplicates', 'C19.locked_refuses', 'C19.enqueue_is_locked']
 TRUSTED = ['Lean 4.33.0 kernel; axioms ⊆ {propext, Classical.choice, Quot.sound}',
            'harness/extractors/ircqueue.py (_high, _low, rate-limited command, echo-emulated commands → Gen/IrcQueue.lean)',
            'harness/c19.py generators, instrumentation (virtual clock, stub driver, recording outFilter callbacks), canonicalisation; hex line protocol',
@@ -32,7 +34,7 @@ RULE = ('seeded operation sequences (queue/send/take/tick/die/reset/connected/po
         'every sequence is run on a real irclib.Irc and on the Lean model and the per-operation observations are diffed. '
         'A case is non-trivial when it exercised at least one non-default branch (tags); distinct = distinct op sequence.')
 ASSUMPTIONS = ['Python asserts enabled', 'integer-valued clock, non-negative integer throttleTime / rateLimit.join',
-               'no object is in the queue twice while labeled-response is negotiated',
+               'no object is in the queue twice while labeled-response is negotiated', 'only the driver thread calls takeMsg / reset (single consumer); other threads call queueMsg / sendMsg',
                'die() before afterConnect closes at once (by design; stated as hypothesis of quit_drains)']
 
 FINDING_REUSED = 'C19-reused-object-lost'     # repaired in /repo b0e0eea; kept as a class name only
@@ -269,6 +271,71 @@ class Impl(object):
         self.objs[serial] = m
         self.serial[id(m)] = serial
         return m
+
+    def qrace(self, op):
+        """['qrace', sA, cA, sB, cB]: thread A calls irc.queueMsg(A); a second thread's whole irc.queueMsg(B)
+        is injected at the first point where CPython could run it: when A asks for the queue's lock (since
+        the repair), or — without a lock — between A's `msg in self` test and its append.
+        -> (observation lines, equivalent sequential ops) in the order the critical sections ran"""
+        from c18_threads import HookLock
+        self.opi += 1
+        self.cur_op = 'queue'
+        irc = self.irc
+        self.drv = []; self.disc = None
+        mA = self.msg(op[1], op[2]); mB = self.msg(op[3], op[4])
+        before = collections.Counter(id(m) for m in self.pending())
+        q = irc.queue
+        done = {}
+        def other():
+            done['ret'] = irc.queueMsg(mB)
+            done['state'] = self.state()
+        cls = type(q)
+        if hasattr(q, 'lock'):
+            real_lock = q.lock
+            hl = HookLock(); hl.hook = other
+            q.lock = hl
+            try:
+                rA = irc.queueMsg(mA)
+            finally:
+                q.lock = real_lock
+            pending_hook = hl.hook is not None
+            self.tags.add('race-at-lock')
+        else:
+            orig = cls.__contains__
+            state = {'hook': other}
+            def contains(self_, msg):
+                r = orig(self_, msg)
+                h, state['hook'] = state['hook'], None
+                if h is not None and self_ is q:
+                    h()
+                return r
+            cls.__contains__ = contains
+            try:
+                rA = irc.queueMsg(mA)
+            finally:
+                cls.__contains__ = orig
+            pending_hook = state['hook'] is not None
+            self.tags.add('race-no-lock')
+        stateA = self.state()
+        if pending_hook:                 # A never reached the queue (quitting bot): B simply runs afterwards
+            other()
+            order = [(op[1], op[2], rA, stateA, mA), (op[3], op[4], done['ret'], done['state'], mB)]
+        else:
+            order = [(op[3], op[4], done['ret'], done['state'], mB), (op[1], op[2], rA, stateA, mA)]
+        after = collections.Counter(id(m) for m in self.pending())
+        want = collections.Counter(before)
+        for _, _, r, _, m in order:
+            if r is True:
+                want[id(m)] += 1
+                self.note_accept(m)
+        if after != want:
+            self.fail('two threads in queueMsg: the queues did not gain exactly the accepted messages')
+        if self.cfg[2] and mA == mB and rA is True and done['ret'] is True:
+            self.fail('two threads queued equal messages at the same time and both were accepted although '
+                      'supybot.protocols.irc.queuing.duplicates refuses duplicates: %s is queued twice' % self.ser(mA))
+        self.tags.add('two-threads-equal' if mA == mB else 'two-threads-different')
+        lines = ['%s\t-\t-\t~\t%s' % ('T' if r else 'F', st) for _, _, r, st, _ in order]
+        return lines, [['queue', s_, c_] for s_, c_, _, _, _ in order]
 
     def do(self, op):
         """run one op; return the observation line"""
@@ -769,7 +836,13 @@ def gen_ops(r, maxlen=60, reuse=False):
                 ops.append(['queue', serial, c]); serial += 1
             nmsgs += 1
         elif x < 0.47:
-            ops.append(['send', serial, gen_content(r)]); serial += 1; nmsgs += 1
+            if r.random() < 0.25:
+                # two threads in queueMsg at once (plugins with threaded commands do that)
+                c = gen_content(r)
+                ops.append(['qrace', serial, c, serial + 1, list(c) if r.random() < 0.6 else gen_content(r)])
+                serial += 2; nmsgs += 2
+            else:
+                ops.append(['send', serial, gen_content(r)]); serial += 1; nmsgs += 1
         elif x < 0.72:
             ops.append(['take'])
         elif x < 0.88:
@@ -795,6 +868,8 @@ def gen_ops(r, maxlen=60, reuse=False):
     # fill in contents of reused serials
     contents = {}
     for op in ops:
+        if op[0] == 'qrace':
+            contents[op[1]] = op[2]; contents[op[3]] = op[4]
         if op[0] in ('queue', 'send'):
             if op[2] is None:
                 op[2] = contents[op[1]]
@@ -844,6 +919,11 @@ def run_case(ops, kind):
                 continue
             if op[0] == 'reclimit':
                 im.rec_extra = op[1]       # takeMsg runs with this many frames of stack left
+                continue
+            if op[0] == 'qrace':
+                lines_, seq_ = im.qrace(op)
+                obs.extend(lines_)
+                expanded.extend(seq_)
                 continue
             if op[0] == 'drun':
                 lines_ = im.drun()
